@@ -11,6 +11,14 @@ CLAIMS = {
   text="Function contracts on the real code of mergeDefaults, nextInterval, growInterval, backoffController.reset and backoffController.next, taken from the property statement (retry limit incl. negative/zero, jitter window, growth with cap, elapsed-time limit, reset, defaults incl. Jitter -1), discharged for all configurations and all counter/interval values.",
   note=COMMON + "float64 is modelled as real numbers (rounding ignored); time.Since >= 0 and rand.Float64 in [0,1) assumed; DefaultClient assumed to hold its initial values. Not under contract: the Connect loop wiring (OnRetry called once with next()'s wait; reset after a successful connection / server retry field) - it uses select, timers and closures.",
   ref="DESIGN.md section 6, C12"),
+ "C02": dict(
+  text="Encoder side, proved on the real code for all messages and all writers: the ghost trace of Write calls made by Message.WriteTo is exactly [\"id: \", ID, \"\\n\"]? [\"event: \", Type, \"\\n\"]? [\"retry: \", digits, \"\\n\"]? then per chunk [\": \"|\"data: \", content, \"\\n\"] and one final \"\\n\" iff anything was written (offsets computed from the flags; chunk.WriteTo, writeMessageField, writeRetry with a 13-byte buffer that never over/underflows, digits only, no leading zero); appendText splits every argument with NextChunk, appends only CR/LF-free chunks with the requested flag and leaves earlier chunks untouched (loop invariants; each iteration consumes exactly one line by NextChunk's contract); ID/Type values are single-line (C14). Decoder side, as ghost lemma functions over the real NextChunk/scanSegment contracts: for every CR/LF-free payload x and any rest, prefix+x+\"\\n\"+rest is split into exactly (prefix+x, rest) and \"data: \"+x / \"event: \"+x / \"id: \"+x / \"retry: \"+x / \": \"+x / \"\" decode to exactly (data,x) / (event,x) / (id,x) / (retry,x) / comment / dispatch marker - so no payload can end the event early, alter a field or reach into the next message.",
+  note=COMMON + "Not machine-checked: the induction from the per-line lemmas to whole concatenations of lines/messages (the loop-invariant rule applied by hand, DESIGN.md section 6 C02) and that the retry digits denote Retry in milliseconds (only digits-only, non-empty, <= 13 bytes, no leading zero are proved). bytes.Buffer/strings.Builder (MarshalText/String) are assumed to append every write and never fail.",
+  ref="DESIGN.md section 6, C02"),
+ "C15": dict(
+  text="Byte accounting proved for chunk.WriteTo, writeMessageField, writeRetry and Message.WriteTo against a ghost cumulative count of the bytes accepted by every Write call: the returned count equals the bytes accepted, no Write follows a failed one, the returned error is the last Write's error, the calls made are a prefix (same offsets, same arguments) of the full encoding trace of C02, and a message with nothing to write makes no call and returns (0, nil); io.Writer may fail or short-write at any call (abstract callee with the io.Writer contract). Round trip: FieldParser.Next returns only valid, CR/LF-free fields and consumes whole lines (loop invariant: rest is a suffix at a line start), Message.UnmarshalText keeps ID/Type/chunks well formed, and the per-line decoder lemmas of C02 show each written line yields the field it was written from.",
+  note=COMMON + "Not machine-checked: the composition UnmarshalText(MarshalText(m)) == m from the per-line lemmas (hand induction over lines, DESIGN.md section 6 C15); MarshalText/String producing the same bytes as WriteTo rests on the assumed append-only behaviour of bytes.Buffer/strings.Builder.",
+  ref="DESIGN.md section 6, C15"),
  "C08": dict(
   text="Representation invariant of FiniteReplayer (well-formed ring, >= 2 slots, stored messages have IDs and topics, consecutive decimal IDs in auto mode) established by NewFiniteReplayer and preserved by Put; per-operation postconditions over the whole abstract view (FIFO of the last N accepted events; rejected messages not stored; IDs start at 0 and are consecutive); findIDInQueue returns the slot after the first event carrying the presented ID and -1 for newest / unknown / unset / never-issued IDs; Replay's Send/Flush call trace on the subscriber's writer is exactly the later matching events in Put order, stops at the first failing Send and flushes once at the end. Holds for every history by induction over operations (the invariant), for every capacity, ID mode, presented ID, topic sets and failing Send position.",
   note=COMMON + "The ID counter is assumed not to reach 2^64-1. The MessageWriter is an abstract callee recorded in a ghost call trace. strconv.FormatUint/ParseUint are uninterpreted with parse(format(n)) = n and digits-only output. With automatic IDs an evicted (older than the buffer) ID is outside the contract, as in the property.",
